@@ -6,7 +6,7 @@ import typing as t
 
 from hypothesis import strategies as st
 
-from .. import absval, gens, msgcheck, rfc4515
+from .. import absval, gens, msgcheck, rfc4515, twins
 from ..engine import QUICK, THOROUGH, Ctx, Part, Property, Violation
 
 _SPECIAL = set(b"()*\\\x00")
@@ -70,6 +70,7 @@ def check_tree(tree: t.Any, ctx: Ctx) -> t.List[Violation]:
     if type(text) is not str:
         return [Violation("str:not-a-str", repr(text)[:100])]
     try:
+        twins.poison_parser(sansldap.LDAPFilter.from_string, text)
         back = sansldap.LDAPFilter.from_string(text)
         tb = absval.filter_to_abstract(back)
         if tb != tree:
